@@ -56,9 +56,69 @@ def relevant(hist, obs):
     return any(o[0] == "R" for o in hist)
 
 
+SURROGATE_LINES = ["1;255;0;0;17;2.2\n", "1;3;0;0;36;label caf\udce9\n", "1;3;1;0;47;door \ud83d open\n",
+                   "1;255;3;0;11;K\udcfcche\n", "1;255;3;0;12;1.\udc80\n", "1;255;3;0;0;77\n"]
+
+
+def surrogate_stop(flavour, fmt, workdir):
+    """(what the gateway held when stop() was called, what a fresh start loads, exception of stop() or None)"""
+    import asyncio
+    import os
+    from . import persist_util as pu
+    path = os.path.join(workdir, f"sur-{flavour}.{fmt}")
+    gw, _conn = stopwin.make(flavour, path)
+    for line in SURROGATE_LINES[:3]:
+        gw.tasks.transport.send(gw.logic(line))
+    try:
+        gw.tasks.persistence.save_sensors()           # a periodic save (its failure is logged, not raised)
+    except Exception:  # noqa: BLE001
+        pass
+    for line in SURROGATE_LINES[3:]:
+        gw.tasks.transport.send(gw.logic(line))
+    held, exc = pu.project_reset(gw.sensors), None
+    try:
+        if flavour == "sync":
+            gw.stop()
+        else:
+            loop = asyncio.new_event_loop()
+            try:
+                loop.run_until_complete(gw.stop())
+                loop.run_until_complete(loop.shutdown_default_executor())
+            finally:
+                loop.close()
+    except Exception as e:  # noqa: BLE001
+        exc = f"{type(e).__name__}: {e}"
+    err, loaded = pu.fresh_load(path)
+    return held, ("load-raised:" + type(err).__name__ if err is not None else pu.project(loaded)), exc
+
+
+def surrogate_part(res):
+    """Text with unpaired surrogate code points (handed over by a client that decoded bytes leniently; not text
+    the Lean model can hold, so judged on the real code only): a clean stop still loses nothing."""
+    import shutil
+    import tempfile
+    work = tempfile.mkdtemp(prefix="verif-c14-")
+    try:
+        for flavour in ("sync", "async"):
+            for fmt in ("json", "pickle"):
+                held, loaded, exc = surrogate_stop(flavour, fmt, work)
+                res.evaluations += 1
+                res.count("unpaired-surrogate-text:" + fmt)
+                if exc is not None or held != loaded:
+                    res.oracle_failures.append({
+                        "key": {"kind": "surrogate-text", "what": "stop-raised" if exc else "lost"},
+                        "replay": {"op": "surrogate-text", "flavour": flavour, "fmt": fmt},
+                        "what": f"{flavour} gateway, {fmt}: the network holds text with unpaired surrogates; stop() "
+                                + (f"raised {exc}" if exc else "returned") + f"; a fresh start loads {loaded[:300]!r}, "
+                                f"the gateway held {held[:300]!r}"})
+    finally:
+        shutil.rmtree(work, ignore_errors=True)
+
+
 def run(tier, seed, driver):
     res = gwfam.run_family("C14", tier, seed, driver, CFG, relevant)
     stopwin.part(res, "C14", driver, tier)
+    surrogate_part(res)
     res.rule = ("state-aware random histories over all versions/kinds with json or pickle persistence, save ticks "
                 "and stop+restart cycles at random positions; corpus first; non-trivial = contains a restart; "
                 "distinct by op script")
@@ -68,4 +128,14 @@ def run(tier, seed, driver):
 def replay(payload):
     if payload.get("replay", {}).get("op") == "stop-window":
         return stopwin.replay(payload["replay"])
+    if payload.get("replay", {}).get("op") == "surrogate-text":
+        import shutil
+        import tempfile
+        work = tempfile.mkdtemp(prefix="verif-c14-")
+        try:
+            held, loaded, exc = surrogate_stop(payload["replay"]["flavour"], payload["replay"]["fmt"], work)
+        finally:
+            shutil.rmtree(work, ignore_errors=True)
+        print("held  :", held, "\nloaded:", loaded, "\nstop() raised:", exc)
+        return 1 if exc is not None or held != loaded else 0
     return gwfam.replay_family("C14", payload)
